@@ -308,12 +308,15 @@ func (m *Morass) Clear() error {
 	m.files = m.files[:0]
 	m.pos = 0
 	m.len = 0
+	m.fast = false
 	select {
 	case m.chunk = <-m.pool:
-		if m.chunk == nil {
-			m.chunk = make(sorter, 0, m.chunkSize)
-		}
 	default:
+		// No spare buffer; reuse the current one.
+		m.chunk = m.chunk[:0]
+	}
+	if m.chunk == nil {
+		m.chunk = make(sorter, 0, m.chunkSize)
 	}
 
 	return nil
